@@ -742,7 +742,11 @@ def head_siblings(text, limit=60):
             else:
                 new = val + "x"
         out.append(text[:m.start()] + ' %s="%s"' % (name, new) + text[m.end():])
-    # SAMI: CSS declarations in the head
+    # SAMI: CSS declarations in the head: dropped; colours also replaced by values the CSS library rejects in
+    # different ways (adjacent in the list: the sweep also reads consecutive siblings one after the other)
     for m in re.finditer(r'([\w\-]+)\s*:\s*([^;{}]+);', text[:head_end]):
         out.append(text[:m.start()] + text[m.end():])
+        if m.group(1).lower() == "color":
+            for bad in ("rgb(1,2)", "ffffff", "#zz", "rgb(300%, a, 0)"):
+                out.append(text[:m.start()] + "color: %s;" % bad + text[m.end():])
     return out[:limit]
